@@ -24,10 +24,23 @@ def handleXroute (case : Nat) (j : Json) : IO Unit := do
     (if single then "" else "response-mixes-attempts-or-redispatch-after-delivery")
     (if single then "" else s!"mixed deployment, passthrough on, native endpoint fault {jstr (jget j "fault")} stream={jbool (jget j "stream")}: client status {jnat (jget impl "status")} err '{jstr (jget impl "err")}' {jnat (jget impl "body_len")} bytes, A saw {jnat (jget impl "a_requests")} request(s), B saw {jnat (jget impl "b_requests")}, B's text in the client's body: {jbool (jget impl "body_has_b")}")
 
+/-- kind "soak": a long-lived engine instance; clients go away mid-stream, afterwards several clients stream at once, each
+    from an answer that carries its own nonce in every event.  What a client that stays to the end holds is its own
+    backend answer's bytes — all of them, nothing of anybody else's. -/
+def handleSoak (case : Nat) (j : Json) : IO Unit := do
+  let impl := jget j "impl"
+  if jstr (jget impl "start_err") != "" then
+    emit case false true "start-error" "" (jstr (jget impl "start_err")); return
+  let bad := jnat (jget impl "complete_not_whole")
+  emit case (bad == 0) (bad == 0) s!"soak.{jstr (jget j "engine")}" (if bad == 0 then "" else "response-not-its-own-backend-answer-after-aborts")
+    (if bad == 0 then "" else s!"{jstr (jget j "engine")}: after {jnat (jget impl "aborted")} clients had gone away mid-stream, {bad} of {bad + jnat (jget impl "complete_whole")} clients that stayed to the end did not hold their own answer's bytes; first: {jstr (jget impl "first")}")
+
 def handle (j : Json) : IO Unit := do
   let case := jnat (jget j "case")
   if jstr (jget j "kind") == "xroute" then
     handleXroute case j; return
+  if jstr (jget j "kind") == "soak" then
+    handleSoak case j; return
   let sc := jget j "scenario"
   let impl := jget j "impl"
   if !(jisNull (jget impl "start_err")) && jstr (jget impl "start_err") != "" then
